@@ -534,3 +534,24 @@ def run(ctx):
     r2_5(ctx, R)
     r2_6(ctx, R)
     r2_7(ctx, R, counter, res["INSERT"][1] or ".free_head")
+    shared(ctx, R)
+
+
+def shared(ctx, R):
+    """Necessary conditions decided by other properties' rule sets that 'every accepted output is yielded (if the
+    collection keeps being polled), exactly once' also rests on; evaluated here so that this check stands alone."""
+    import c01
+    import c04
+    import c05
+    import c15
+    for fn_ in (c01.r1_1, c01.r1_2, c01.r1_3, c01.r1_4, c01.r1_5, c01.r1_7, c01.r1_8):
+        fn_(ctx, R)
+    ctx.rule("R1.x", "see C01 (shared): the wake/poll handshake -- an accepted future that is never polled again is never yielded")
+    c05.r5_1(ctx, R)
+    ctx.rule("R5.1", "see C05 R5.1 (shared): only the Occupied slot of the popped index is polled")
+    ot = c04.ordered_types(ctx)
+    c04.r4_1(ctx, R, ot)
+    c04.r4_2(ctx, R, ot)
+    ctx.rule("R4.1", "see C04 R4.1 (shared): index discipline -- a gap or duplicate in the order indices parks outputs forever")
+    ctx.rule("R4.2", "see C04 R4.2 (shared): outputs are released exactly when in turn")
+    c15.r15_2b(ctx, R)
